@@ -783,6 +783,7 @@ def main(tier, seed, only=None):
     nviol = 0
     known_lines = []
     reported = []
+    ungated = []
     for n, (vc, fs) in enumerate(sorted(groups_.items())):
         fs.sort(key=lambda f: (0, 0) if f["program"] is None else (len(programs[f["program"]]["tus"]), sum(len(t["items"]) for t in programs[f["program"]]["tus"])))
         f = fs[0]
@@ -813,8 +814,9 @@ def main(tier, seed, only=None):
                     ok_ = True
                     break
             if not ok_:
-                log("INFRASTRUCTURE: API-sweep violation did not reproduce in two fresh-process replays: %s" % path)
-                return 2
+                ungated.append(path)
+                log("  (not reported: the API-sweep candidate did not reproduce in two fresh-process replays: %s)" % path)
+                continue
             log("  %s %s under %s link=%s" % (f["class"], f["note"], f["schedule"]["cfg"], f["schedule"]["link"]))
             reported.append("VIOLATION property=%s replay=%s" % (PROP, path))
             exit_code = 1
@@ -822,8 +824,9 @@ def main(tier, seed, only=None):
         mp, ms, used = minimise(tc, programs[f["program"]], f)
         path = write_replay(seed, mp, ms, f, n)
         if not gate(path):
-            log("INFRASTRUCTURE: minimised violation did not reproduce in two fresh-process replays: %s" % path)
-            return 2
+            ungated.append(path)
+            log("  (not reported: the minimised candidate did not reproduce in two fresh-process replays: %s)" % path)
+            continue
         log("  %s probe=%s kind=%s note=%s under %s order=%s (minimised with %d rebuild-and-runs)" % (
             f["class"], f["probe"], f["kind"], f.get("note"), cfg_name(ms["cfg"]), ms["order"], used))
         if "pre" in f:
@@ -834,6 +837,9 @@ def main(tier, seed, only=None):
         log(l)
     for l in reported:
         log(l)
+    if ungated and exit_code == 0:
+        log("INFRASTRUCTURE: %d candidate violations did not reproduce in fresh-process replays and nothing else was found: %s" % (len(ungated), ungated[:3]))
+        return 2
     wall = time.time() - t0
     sample_prog = programs[lto_index - 1] if nseeded else programs[0]
     samples = [{"program": sample_prog["label"],
